@@ -1301,6 +1301,33 @@ pub fn execute_c07(plan: &Plan) -> Outcome {
                 let _ = sock.send_to(&d, server_addr()).await;
                 bump("datagrams_to_server", 1);
             }
+            // well-formed SOCKS5-UDP datagrams from this one socket to a spread of targets - addresses and names, ports above and
+            // below one another: whatever the client keys its tables with has to cope with any mix
+            if i % 3 == 0 && plan.config.proto != Proto::Trojan {
+                let spread: Vec<u8> = match g.below(3) {
+                    0 => {
+                        let mut d = vec![0u8, 0, 0, 1, 127, 0, 30 + g.below(4) as u8, 1 + g.below(200) as u8];
+                        d.extend_from_slice(&(g.range(1, 65535) as u16).to_be_bytes());
+                        d
+                    }
+                    1 => {
+                        let name = format!("{}.spread.test", g.pick(&["a", "m", "z", "example", "0"]));
+                        let mut d = vec![0u8, 0, 0, 3, name.len() as u8];
+                        d.extend_from_slice(name.as_bytes());
+                        d.extend_from_slice(&(g.range(1, 65535) as u16).to_be_bytes());
+                        d
+                    }
+                    _ => {
+                        let mut d = vec![0u8, 0, 0, 1, 10 + g.below(200) as u8, g.below(256) as u8, 0, 1];
+                        d.extend_from_slice(&[*g.pick(&[0u8, 1, 0x7f, 0xff]), g.below(256) as u8]);
+                        d
+                    }
+                };
+                let mut d = spread;
+                d.extend_from_slice(b"spread-datagram");
+                let _ = sock.send_to(&d, SocketAddr::new(IpAddr::V4(Ipv4Addr::LOCALHOST), CLIENT_PORT)).await;
+                bump("wellformed_datagrams_to_a_spread_of_targets", 1);
+            }
             // malformed SOCKS5-UDP requests to the client's local port
             let d: Vec<u8> = match i % 6 {
                 0 => {
